@@ -13,6 +13,7 @@ import (
 
 // commonObligations are the fail-closed loader obligations shared by all properties (DESIGN §E0).
 func commonObligations(p *Prog, r *Report) {
+	keeperBindingObligation(p, r)
 	// 1. every non-test .go file on disk under x/cctp is compiled into a loaded package
 	compiled := map[string]bool{}
 	for _, path := range modulePkgs {
@@ -168,6 +169,61 @@ func inventoryObligations(p *Prog, r *Report, table map[string]bool, kind string
 }
 
 // wiringObligations: the functions analysed are the functions served.
+func keeperBindingObligation(p *Prog, r *Report) {
+	// NewKeeper binds the dependencies it is given, unwrapped: what the handlers call as
+	// k.bank / k.fiattokenfactory / k.storeService is the application's keeper, not a module-made
+	// stand-in that could do more (or less) per call
+	if nk := p.Func("keeper.NewKeeper"); nk == nil {
+		r.fail("wiring", "wiring/NewKeeper", "", "constructor not found")
+	} else {
+		want := map[string]int{"cdc": 0, "logger": 1, "storeService": 2, "bank": 3, "fiattokenfactory": 4}
+		got := map[string]string{}
+		okShape := false
+		for _, ret := range allReturns(nk) {
+			if a, ok := ret.Results[0].(*ssa.Alloc); ok {
+				okShape = true
+				for _, ref := range *a.Referrers() {
+					fa, ok := ref.(*ssa.FieldAddr)
+					if !ok {
+						if _, isRet := ref.(*ssa.Return); !isRet {
+							okShape = false
+						}
+						continue
+					}
+					for _, fr := range *fa.Referrers() {
+						st, ok := fr.(*ssa.Store)
+						if !ok || st.Addr != ssa.Value(fa) {
+							okShape = false
+							continue
+						}
+						val := st.Val
+						if mi, ok := val.(*ssa.MakeInterface); ok {
+							val = mi.X
+						}
+						if prm, ok := val.(*ssa.Parameter); ok {
+							for i, q := range nk.Params {
+								if q == prm {
+									got[fieldName(fa)] = fmt.Sprintf("p%d", i)
+								}
+							}
+						} else {
+							got[fieldName(fa)] = fmt.Sprintf("%T", val)
+						}
+					}
+				}
+			}
+		}
+		okAll := okShape && len(allReturns(nk)) == 1 && len(got) == len(want)
+		for f, i := range want {
+			if got[f] != fmt.Sprintf("p%d", i) {
+				okAll = false
+			}
+		}
+		r.check(okAll, "wiring", "wiring/NewKeeper/binds-its-parameters", p.pos(nk.Pos()), "keeper fields are the constructor's parameters",
+			fmt.Sprintf("NewKeeper binds %v: a dependency is wrapped, replaced or dropped", got))
+	}
+}
+
 func wiringObligations(p *Prog, r *Report) {
 	// NewMsgServerImpl returns &msgServer{Keeper: keeper}
 	fn := p.Func("keeper.NewMsgServerImpl")
